@@ -1,16 +1,17 @@
 import PyramidModel.Lemmas.SecurityPhases
 import PyramidModel.Lemmas.SecurityConfig
+import PyramidModel.TopoDerive
 /-!
 # C05 — a protected view body runs only after the security policy granted its permission
 
 Property theorems only.  Model: `PyramidModel/Security.lean`; helper lemmas: `Lemmas/Security*.lean`.
 
 Two groups.
-* Obligations over the tables REGENERATED from the source on every run (`Gen/C05.lean`, `Gen/C18.lean`): the
-  secured-view deriver is the outermost of the sorted default chain, the policy and the default permission are
-  registered in earlier phases than views, every place that can reach a view callable from the router passes
-  `secure=True`, the shapes of `_secured_view` / `MultiView` / `_call_view` / `_error_handler` are the ones the
-  model mirrors, the special directives force `NO_PERMISSION_REQUIRED`.  All by `decide` over the whole table.
+* Obligations over the tables REGENERATED from the tree under test on every run (`Gen/C05.lean`): behavioural
+  tables obtained by running that tree's code over finite domains (the observed wrapping order of the default deriver
+  chain, `secured_view`, `_call_view`, `MultiView`, the exception-view tween, the phases of the effectful actions, the
+  special directives) compared row by row with the model's functions, and one structural table (every place that can
+  reach a view callable from the router passes `secure=True`).  All by `decide` over the whole table.
 * Model theorems, for ALL configurations (any statements in any written order on top of any prior registry
   state), ALL policy decision tables and ALL requests: `mediation`, `refused_no_body_403`,
   `refused_no_body_partial` (+ the `decide`d witness of F-C05a), `unprotected_never_blocked`,
@@ -18,56 +19,77 @@ Two groups.
 -/
 namespace Pyr.Security
 
-open Pyr.Topo Pyr.Gen.C05
+open Pyr.Topo Pyr.Gen.C05 Pyr.Gen.C18
 
-/-! ## obligations over the generated tables -/
+/-! ## obligations over the tables regenerated from the tree under test
 
-/-- Among the default view derivers, sorted by the proven C18 sorter from the `under`/`over` hints the source
-declares, `secured_view` is the first (= outermost) and `mapped_view` (which calls the user's callable) the last;
-in the wrapping order only the two fixed wrappers `attr_wrapped_view`, `predicated_view` stand outside the
-permission check, and the chain is exactly the one the model's layers were written for. -/
+Most of these tables are BEHAVIOURAL: `extract/c05_probe.py` runs the code of the tree under test over a finite
+domain and records what it does (Gen/C05.lean); the theorems below compare every row with what the MODEL's
+functions compute for that row, so they hold for any source text that behaves the same and fail for any that does
+not.  Only `router_paths_secure` is about the source text (every place in the tree that can reach a view). -/
+
+/-- the sorter of `add_view_deriver` (C18's proven model) fed with the hints the running code recorded -/
+def probedSorterResult : Option (List String) :=
+  let known := probedHints.map (·.1)
+  let id := nameId "INGRESS" "VIEW" known
+  let s0 := mkSorter ⟨none, some "INGRESS", "INGRESS", "VIEW"⟩ known
+  let ops : List AddOp := probedHints.map fun h => { name := id h.1, after := some (h.2.1.map id), before := some (h.2.2.map id) }
+  match (s0.addAll ops).sorted with
+  | .ok ids => some (ids.map fun i => known.getD (i - 20) "?")
+  | _ => none
+
+/-- The wrapping order OBSERVED on the tree under test (tracing derivers, a derived view called): only the two fixed
+wrappers `attr_wrapped_view`, `predicated_view` are entered before `secured_view`; `mapped_view` (which calls the
+user's callable) is entered last; the default derivers' own order is `secured_view` first; and C18's proven sorter
+model, fed with the hints the running `add_view_deriver` recorded, predicts exactly the order the running sorter
+returned. -/
 theorem secured_outermost :
-    (deriverNamesOf defaultDeriverSorter.sorted).bind List.head? = some "secured_view" ∧
-    (deriverNamesOf defaultDeriverSorter.sorted).bind List.getLast? = some "mapped_view" ∧
-    chainNames.takeWhile (fun n => n != "secured_view") = ["attr_wrapped_view", "predicated_view"] ∧
-    chainNames = ["attr_wrapped_view", "predicated_view", "secured_view", "csrf_view", "owrapped_view",
-                  "http_cached_view", "decorated_view", "rendered_view", "mapped_view"] ∧
+    probedWrapping = ["attr_wrapped_view", "predicated_view", "secured_view", "csrf_view", "owrapped_view",
+                      "http_cached_view", "decorated_view", "rendered_view", "mapped_view"] ∧
+    probedSorted.head? = some "secured_view" ∧ probedSorted.getLast? = some "mapped_view" ∧
+    probedWrapping.takeWhile (fun n => n != "secured_view") = ["attr_wrapped_view", "predicated_view"] ∧
+    probedWrapping.drop 2 = probedSorted ∧
+    probedSorterResult = some probedSorted := by decide
+
+/-- the layers the model interprets, as computed from the observed wrapping order -/
+theorem chain_layers :
     chain = [.other, .predicated, .secured, .other, .owrapped, .other, .other, .other, .other] := by decide
 
 /-- what the model theorems need of the chain -/
 theorem chain_secured : Layer.secured ∈ chain := by decide
 
-/-- `set_security_policy` (PHASE2), the legacy authentication policy whose registration installs the shim policy
-(PHASE2) and `set_default_permission` (PHASE1) all execute before `add_view`'s registration (default order), so a
-view derived in the same commit scope sees them — whatever the written order (`views_see_final_policy`). -/
+/-- The action whose EXECUTION registers the security policy (`set_security_policy`; for the legacy pair the
+authentication policy's action, which installs the shim policy) and the one that registers the default permission
+carry an `order` below that of the action that registers a view — observed by executing the queued actions of each
+directive one by one on the tree under test.  So a view derived in the same commit scope sees them, whatever the
+written order (`views_see_final_policy`). -/
 theorem policy_visible_at_derivation : PhasesOK :=
   ⟨by decide, by decide, by decide⟩
 
-/-- the phase table itself, as resolved through the `PHASEn_CONFIG` constants -/
+/-- the observed phase table -/
 theorem phase_table :
     phaseConstants = [("PHASE0_CONFIG", -30), ("PHASE1_CONFIG", -20), ("PHASE2_CONFIG", -10), ("PHASE3_CONFIG", 0)] ∧
-    actionDefaultOrder = 0 ∧
     phasePolicy = -10 ∧ phaseLegacy = -10 ∧ phaseDefault = -20 ∧ phaseView = 0 ∧
-    (directiveOrders.lookup "add_route").map (fun l => l.map (·.1)) = some [0, -10] := by decide
+    lookupOrder "add_route" 99999 = -10 ∧ lookupOrder "add_view_deriver" 99999 = -20 := by decide
 
-/-- the audited list of every place in `src/pyramid` that calls a view-lookup entry point or touches
+/-- the audited list (sorted) of every place in `src/pyramid` that calls a view-lookup entry point or touches
 `__call_permissive__` -/
 def auditedCallSites : List CallSite := [
-  ⟨"router.py", "Router.handle_request", "call:_call_view", "default", ""⟩,
-  ⟨"tweens.py", "_error_handler", "call:request.invoke_exception_view", "default", ""⟩,
-  ⟨"view.py", "render_view_to_response", "call:_call_view", "secure", ""⟩,
-  ⟨"view.py", "render_view_to_iterable", "call:render_view_to_response", "secure", ""⟩,
-  ⟨"view.py", "render_view", "call:render_view_to_iterable", "secure", ""⟩,
-  ⟨"view.py", "_call_view", "str:__call_permissive__", "", "if not secure"⟩,
-  ⟨"view.py", "ViewMethodsMixin.invoke_exception_view", "call:_call_view", "secure", ""⟩,
-  ⟨"viewderivers.py", "preserve_view_attrs", "str:__call_permissive__", "", ""⟩,
-  ⟨"viewderivers.py", "owrapped_view._owrapped_view", "call:render_view_to_response", "default", ""⟩,
-  ⟨"viewderivers.py", "_secured_view", "attr:__call_permissive__:store", "", ""⟩,
-  ⟨"viewderivers.py", "rendered_view.rendered_view", "call:*.render_view", "", ""⟩,
   ⟨"config/views.py", "MultiView.__call_permissive__", "str:__call_permissive__", "", ""⟩,
   ⟨"config/views.py", "ViewsConfiguratorMixin.add_view.register_view", "str:__call_permissive__", "", ""⟩,
   ⟨"config/views.py", "runtime_exc_view", "attr:__call_permissive__:store", "", ""⟩,
-  ⟨"config/views.py", "runtime_exc_view", "str:__call_permissive__", "", ""⟩
+  ⟨"config/views.py", "runtime_exc_view", "str:__call_permissive__", "", ""⟩,
+  ⟨"router.py", "Router.handle_request", "call:_call_view", "default", ""⟩,
+  ⟨"tweens.py", "_error_handler", "call:request.invoke_exception_view", "default", ""⟩,
+  ⟨"view.py", "ViewMethodsMixin.invoke_exception_view", "call:_call_view", "secure", ""⟩,
+  ⟨"view.py", "_call_view", "str:__call_permissive__", "", "secure=false"⟩,
+  ⟨"view.py", "render_view", "call:render_view_to_iterable", "secure", ""⟩,
+  ⟨"view.py", "render_view_to_iterable", "call:render_view_to_response", "secure", ""⟩,
+  ⟨"view.py", "render_view_to_response", "call:_call_view", "secure", ""⟩,
+  ⟨"viewderivers.py", "_secured_view", "attr:__call_permissive__:store", "", ""⟩,
+  ⟨"viewderivers.py", "owrapped_view._owrapped_view", "call:render_view_to_response", "default", ""⟩,
+  ⟨"viewderivers.py", "preserve_view_attrs", "str:__call_permissive__", "", ""⟩,
+  ⟨"viewderivers.py", "rendered_view.rendered_view", "call:*.render_view", "", ""⟩
 ]
 
 /-- the functions a request travels through from `Router.__call__` to a view callable -/
@@ -84,113 +106,160 @@ def passesSecure (s : CallSite) : Bool :=
   s.arg == "default" || s.arg == "True" ||
     (s.arg == "secure" && s.func == "ViewMethodsMixin.invoke_exception_view")
 
-/-- The generated call-site table equals the audited whitelist; every lookup made by a function on the router's
-path passes `secure=True` (all defaults are `True`); the only caller-side use of the permissive handle is
-`_call_view`'s, under `if not secure`; nothing in the tree passes `secure=False` to anything. -/
+/-- STRUCTURAL (python `ast` over the whole tree).  The call-site table equals the audited whitelist; every lookup
+made by a function on the router's path passes `secure=True` (all defaults, read off the live signatures, are
+`True`); the only caller-side use of the permissive handle is `_call_view`'s, reachable only when `secure` is false
+(`if not secure:` and `if secure: … else:` are the same guard); nothing in the tree passes `secure=False`. -/
 theorem router_paths_secure :
     callSites = auditedCallSites ∧
     (∀ s ∈ callSites, s.func ∈ routerReachable → s.what ∈ viewLookupCalls → passesSecure s = true) ∧
     secureDefaults = [("_call_view", "True"), ("render_view_to_response", "True"), ("render_view_to_iterable", "True"),
                       ("render_view", "True"), ("invoke_exception_view", "True")] ∧
-    (∀ s ∈ callSites, s.func = "_call_view" → s.what = "str:__call_permissive__" → s.guard = "if not secure") ∧
+    (∀ s ∈ callSites, s.func = "_call_view" → s.what = "str:__call_permissive__" → s.guard = "secure=false") ∧
     (∀ s ∈ callSites, s.what ≠ "kw:secure=False") := by decide
 
-/-- `_secured_view` (local names alpha-normalised: v0 = the wrapped view, v1 = info, v2 = permission, v3 = policy,
-v4 = `permitted`, v7 = the wrapper): the permission is the explicit one, else — unless `exception_only` — the
-default; the marker clears it; no policy or no permission ⇒ the view is returned unwrapped; the wrapper asks
-`policy.permits(request, context, permission)`, calls the wrapped view only under `if result:`, raises
-`HTTPForbidden` otherwise, and binds `__call_permissive__` to the wrapped view.  `secured_view` applies it (and
-the debug wrapper) through `wraps_view`. -/
-theorem secured_view_shape :
-    shapeSecuredInner = [
-      "def(v0,v1)",
-      "v2 = v1.options.get('permission')",
-      "if not v1.exception_only and v2 is None:",
-      "  v2 = v1.registry.queryUtility(IDefaultPermission)",
-      "if v2 == NO_PERMISSION_REQUIRED:",
-      "  v2 = None",
-      "v3 = v1.registry.queryUtility(ISecurityPolicy)",
-      "if v3 is None or v2 is None:",
-      "  return v0",
-      "def v4(v5,v6):",
-      "  return v3.permits(v6, v5, v2)",
-      "def v7(v5,v6):",
-      "  v8 = v4(v5, v6)",
-      "  if v8:",
-      "    return v0(v5, v6)",
-      "  v9 = getattr(v0, '__name__', v0)",
-      "  v10 = getattr(v6, 'authdebug_message', 'Unauthorized: %s failed permission check' % v9)",
-      "  raise HTTPForbidden(v10, result=v8)",
-      "v7.__call_permissive__ = v0",
-      "v7.__permission__ = v2",
-      "v7.__permitted__ = v4",
-      "return v7"] ∧
-    shapeSecuredDeriver = [
-      "def(v0,v1)",
-      "for v2 in (_secured_view, _authdebug_view):",
-      "  v0 = wraps_view(v2)(v0, v1)",
-      "return v0"] := by decide
+/-! ### `secured_view`, probed -/
 
-/-- `MultiView.__call__` calls each constituent view itself (never its permissive handle) and only swallows
-`PredicateMismatch`; `__permitted__`/`__call_permissive__`/`match` as modelled; the loop of `_call_view` takes the
-permissive handle only under `if not v2` (that `v2` is the parameter `secure` is the call-site table's guard
-`if not secure`, `router_paths_secure`); `_error_handler` re-raises the original exception
-only for `HTTPNotFound`. -/
-theorem lookup_shapes :
-    shapeMultiCall = [
-      "def(v0,v1,v2)",
-      "for (v3, v4, v5) in v0.get_views(v2):",
-      "  try:",
-      "    return v4(v1, v2)",
-      "  except PredicateMismatch:",
-      "    continue",
-      "raise PredicateMismatch(v0.name)"] ∧
-    shapeMultiPermitted = [
-      "def(v0,v1,v2)",
-      "v3 = v0.match(v1, v2)",
-      "if hasattr(v3, '__permitted__'):",
-      "  return v3.__permitted__(v1, v2)",
-      "return True"] ∧
-    shapeMultiPermissive = [
-      "def(v0,v1,v2)",
-      "v3 = v0.match(v1, v2)",
-      "v3 = getattr(v3, '__call_permissive__', v3)",
-      "return v3(v1, v2)"] ∧
-    shapeMultiMatch = [
-      "def(v0,v1,v2)",
-      "for (v3, v4, v5) in v0.get_views(v2):",
-      "  if not hasattr(v4, '__predicated__'):",
-      "    return v4",
-      "  if v4.__predicated__(v1, v2):",
-      "    return v4",
-      "raise PredicateMismatch(v0.name)"] ∧
-    shapeCallViewLoop = [
-      "for v0 in v1:",
-      "  try:",
-      "    if not v2:",
-      "      v0 = getattr(v0, '__call_permissive__', v0)",
-      "    v3 = v0(v4, v5)",
-      "    return v3",
-      "  except PredicateMismatch as v6:",
-      "    v7 = v6"] ∧
-    shapeErrorHandler = [
-      "def(v0,v1)",
-      "v2 = sys.exc_info()",
-      "try:",
-      "  v3 = v0.invoke_exception_view(v2)",
-      "except HTTPNotFound:",
-      "  reraise(*v2)",
-      "return v3"] := by decide
+def decodePerm (code id : Nat) : PermArg := if code = 0 then .absent else if code = 1 then .name id else .npr
 
-/-- `add_forbidden_view` / `add_notfound_view` / `add_exception_view` hand `add_view` `permission=
-NO_PERMISSION_REQUIRED` and `exception_only=True` and reject a `permission` argument; `add_static_view` defaults
-the permission to `NO_PERMISSION_REQUIRED`. -/
+def encEv : Event → Nat
+  | .permits _ p _ => 9 + p
+  | .body t _ _ _ => t
+  | .mainRaised k => 1000 + k
+
+def encOut : Outcome → List Nat
+  | .resp t => [0, t]
+  | .none => [1]
+  | .mismatch => [2]
+  | .raised k => [3, k]
+  | .perm b => [4, if b then 1 else 0]
+
+/-- what the MODEL says about one probed run of `secured_view(view, info)`: the guard is `effPerm` (explicit name
+↦ 1, default name ↦ 2) when a policy is registered; `__call_permissive__` is the wrapped view; calling the result is
+the `secured` layer over the body (tag 20): `permits(request, context, guard)` first, the body only on a truthy
+answer, HTTPForbidden otherwise; `__permitted__` is that answer. -/
+def securedRowOk (r : SecuredRow) : Bool :=
+  let g := if r.policy then effPerm (decodePerm r.dflt 2) (decodePerm r.perm 1) r.excOnly else none
+  let d : DView := { tag := 20, name := 0, route := 0, ctxClass := 0, exc := r.excOnly, order := 0, preds := [],
+                     guard := g, wrapper := none, act := 0 }
+  let res := runLayers (fun _ => ([], .none)) (fun _ _ => r.truthy) [] 7 d [.secured]
+  r.guard == g.getD 0 && r.permissiveInner &&
+  r.trace == res.1.map encEv &&
+  [r.outcome] == (match res.2 with | .resp _ => [0] | .raised k => if k = kForbidden then [1] else [9] | _ => [9]) &&
+  r.permitted == (match g with | none => 2 | some _ => if r.truthy then 1 else 0)
+
+/-- BEHAVIOURAL (replaces the source-shape obligation).  The registered deriver `secured_view`, run on the tree under
+test over permission {absent, name, marker} × exception_only × default permission {unset, name, marker} × policy
+{absent, answering `True False 1 0 'yes' '' None Allowed Denied`} — 180 runs — behaves in every run as the model's
+`effPerm` + `secured` layer say. -/
+theorem secured_view_behaviour :
+    securedProbe.length = 180 ∧ securedProbe.all securedRowOk = true := by decide +kernel
+
+/-! ### `_call_view`, probed -/
+
+def probeView (tag : Nat) : DView :=
+  { tag := tag, name := 0, route := 0, ctxClass := 0, exc := false, order := 0, preds := [], guard := none,
+    wrapper := none, act := 0 }
+
+def kindRes (tag kind : Nat) : Res :=
+  ([.body tag false 0 none], if kind = 0 then .resp tag else if kind = 1 then .mismatch else .raised kForbidden)
+
+/-- the model's `_call_view` loop on the probed callables: each found callable is a one-view slot; `run` is the
+callable itself, `runP` its permissive handle when it has one -/
+def callViewRowOk (r : CallViewRow) : Bool :=
+  let spec := fun (d : DView) => r.views.getD (d.tag - 1) (9, false)
+  let run := fun (d : DView) => kindRes d.tag (spec d).1
+  let runP := fun (d : DView) => if (spec d).2 then (([.body (100 + d.tag) false 0 none], .resp (100 + d.tag)) : Res) else run d
+  let slots := (List.range r.views.length).map fun i => [probeView (i + 1)]
+  let res := callSlots (callSlot run runP (fun _ => true) r.secure) slots false
+  r.events == res.1.map encEv && r.out == encOut res.2
+
+/-- BEHAVIOURAL.  `_call_view` on the tree under test over 0–2 found callables × {response, PredicateMismatch,
+HTTPForbidden} × {plain, with a permissive handle} × `secure` (86 runs): it calls the callables themselves when
+`secure=True` and the permissive handle only when `secure=False`, stops at the first that does not raise
+`PredicateMismatch`, lets HTTPForbidden through, re-raises the last mismatch, returns `None` when nothing was found —
+exactly the model's `callSlots`/`callSlot`. -/
+theorem call_view_behaviour :
+    callViewProbe.length = 86 ∧ callViewProbe.all callViewRowOk = true := by decide +kernel
+
+/-! ### `MultiView`, probed -/
+
+def mvSpec (r : MultiRow) (d : DView) : Nat × Nat := r.views.getD (d.tag - 1) (9, 9)
+
+/-- a constituent as the secured, predicated callable it is: predicate false ⇒ mismatch; unsecured ⇒ body (100+i);
+secured ⇒ "policy asked" (200+i), then body or HTTPForbidden -/
+def mvRun (r : MultiRow) (d : DView) : Res :=
+  let ps := mvSpec r d
+  if ps.1 = 2 then ([], .mismatch)
+  else if ps.2 = 0 then ([.body (100 + d.tag) false 0 none], .resp d.tag)
+  else if ps.2 = 1 then ([.body (200 + d.tag) false 0 none, .body (100 + d.tag) false 0 none], .resp d.tag)
+  else ([.body (200 + d.tag) false 0 none], .raised kForbidden)
+
+def mvRunP (r : MultiRow) (d : DView) : Res :=
+  if (mvSpec r d).2 = 0 then mvRun r d else ([.body (100 + d.tag) false 0 none], .resp d.tag)
+
+def mvViews (r : MultiRow) : List DView :=
+  (List.range r.views.length).map fun i =>
+    { probeView (i + 1) with guard := if (r.views.getD i (9, 9)).2 = 0 then none else some (200 + i + 1) }
+
+def multiRowOk (r : MultiRow) : Bool :=
+  let ds := mvViews r
+  let holds := fun (d : DView) => (mvSpec r d).1 != 2
+  let call := callMulti (mvRun r) ds
+  let perm := callSlot (mvRun r) (mvRunP r) holds false ds
+  let w : World := { pol := fun _ p => (r.views.getD (p - 201) (9, 9)).2 == 1, excSro := fun _ => [] }
+  let pmt := multiPermitted w 0 holds ds
+  r.callEv == call.1.map encEv && r.callOut == encOut call.2 &&
+  (r.views.length == 1 || (r.permEv == perm.1.map encEv && r.permOut == encOut perm.2)) &&
+  r.pmtEv == pmt.1.map (fun e => match e with | .permits _ p _ => p | _ => 0) &&
+  r.pmtOut == (match pmt.2 with | .raised _ => [2] | o => encOut o)
+
+/-- BEHAVIOURAL.  `MultiView.__call__` / `__call_permissive__` / `__permitted__` on the tree under test over 0–2
+constituents × predicate {none, true, false} × {unsecured, secured+granted, secured+refused} (91 multiviews): `__call__`
+calls each constituent ITSELF (never its permissive handle) and only swallows `PredicateMismatch` (`callMulti`);
+`__call_permissive__` takes the first constituent whose predicate holds and calls its permissive handle;
+`__permitted__` asks that constituent's `__permitted__` or answers `True`.  (A one-element MultiView never exists in a
+registry, so the permissive comparison skips those rows.) -/
+theorem multiview_behaviour :
+    multiViewProbe.length = 91 ∧ multiViewProbe.all multiRowOk = true := by decide +kernel
+
+/-! ### the exception-view tween, probed -/
+
+def tweenRowOk (r : Nat × Bool × List Nat × List Nat) : Bool :=
+  let kind := r.1
+  if kind = 9 then r.2.2.1 == [] && r.2.2.2 == [0, 7]
+  else
+    -- the outcome of the exception-view lookup as `_call_view` reports it
+    let o : Outcome := if kind = 0 then .none else if kind = 1 then .resp 1 else if kind = 2 then .mismatch
+                       else if kind = 3 then .raised kNotFound else if kind = 4 then .raised kForbidden else .raised 2
+    r.2.2.1 == (if kind = 0 then [50] else [50, 1]) && r.2.2.2 == encOut (excOutcome 1 o)
+
+/-- BEHAVIOURAL.  `excview_tween` + `Request.invoke_exception_view` on the tree under test, handler raising an
+exception of kind 1, one exception view of each behaviour × {plain, with a permissive handle}: the exception view is
+called ITSELF (event 1, never the permissive handle 101 — `secure=True` on this path); no view / `PredicateMismatch` /
+`HTTPNotFound` ⇒ the ORIGINAL exception is re-raised; a response is returned; HTTPForbidden or anything else the
+exception view raises propagates — the model's `excOutcome`; a handler that returns is passed through. -/
+theorem tween_behaviour :
+    tweenProbe.length = 12 ∧ tweenProbe.all tweenRowOk = true := by decide
+
+/-- `excPhase` is the exception-view lookup followed by `excOutcome` -/
+theorem excPhase_outcome (views : List DView) (w : World) (q : Req) (k : Nat) :
+    (excPhase chain views w q k).2 =
+      excOutcome k (callView chain views w q.wrapIfaces q.preds (fuelFor views) true q.excIfaces (w.excSro k) 0
+        (excCtx k) true).2 := by
+  simp only [excPhase, excOutcome]
+  split <;> try rfl
+  split <;> rfl
+
+/-- BEHAVIOURAL.  Under a security policy AND a default permission, the callables derived for `add_forbidden_view`
+/ `add_notfound_view` / `add_exception_view` and for `add_static_view` without `permission=` carry no permission
+wrapper; the first three are exception-only and reject a `permission` argument (static honours one). -/
 theorem special_directives_table :
     specialDirectives = [
-      ("add_forbidden_view", "NO_PERMISSION_REQUIRED", true, true),
-      ("add_notfound_view", "NO_PERMISSION_REQUIRED", true, true),
-      ("add_exception_view", "NO_PERMISSION_REQUIRED", true, true),
-      ("add_static_view", "NO_PERMISSION_REQUIRED", false, false)] := by decide
+      ("add_forbidden_view", "unguarded", true, true),
+      ("add_notfound_view", "unguarded", true, true),
+      ("add_exception_view", "unguarded", true, true),
+      ("add_static_view", "unguarded", false, false)] := by decide
 
 /-! ## configuration: effective permission, and independence of the written order -/
 
@@ -431,7 +500,7 @@ called through the chain, the first thing that happens is its body — the polic
 theorem unprotected_never_blocked (wrap : Nat → Res) (pol : Nat → Nat → Bool) (truePreds : List Nat) (ctx : Nat)
     (d : DView) (hg : d.guard = none) (hp : predsHold truePreds d = true) :
     (runLayers wrap pol truePreds ctx d chain).1.head? = some (.body d.tag d.exc ctx none) := by
-  rw [secured_outermost.2.2.2.2]
+  rw [chain_layers]
   cases hw : d.wrapper <;> by_cases ha : d.act = 0 <;> simp [runLayers, hg, hp, hw, ha]
 
 /-- If no registered view carries a guard — in particular (`no_policy_never_blocked`) when no policy is
@@ -488,7 +557,6 @@ theorem vep_spec (views : List DView) (w : World) (q : Req) (b : Bool) (h : (vep
     have hm := hmem s hf
     cases s with
     | nil =>
-      simp only [List.find?_nil] at h
       cases h
     | cons d ds =>
       cases ds with
@@ -496,7 +564,7 @@ theorem vep_spec (views : List DView) (w : World) (q : Req) (b : Bool) (h : (vep
         simp only at h ⊢
         exact key d (hm d (List.mem_singleton.mpr rfl)) b h
       | cons d2 ds2 =>
-        simp only at h ⊢
+        simp only [multiPermitted] at h ⊢
         cases hfd : (d :: d2 :: ds2).find? (predsHold q.preds) with
         | none => rw [hfd] at h; cases h
         | some d' =>
